@@ -98,6 +98,14 @@ CHECKS = {
                      "VMDK descriptors incl. embedded ones; VHD / VDI / HDS headers; Parallels descriptors.",
                 note="trusted: builders; case-insensitive comparison only where the library documents a normalised view",
                 technique="exhaustive enumeration of stored values per structure against the real parsers"),
+    "C15": dict(level=MC, ref="DESIGN.md section 4 C15",
+                text="An independent encryptor (validated byte for byte against the repository's encrypted.vmx) produces every "
+                     "combination of cipher x MAC x KDF x salt length x passphrase x configuration length 0..48 x locator list "
+                     "(and rounds 1/2/1000); unlocking with the right passphrase must yield exactly the outer entries updated "
+                     "with the configuration entries; every other passphrase of a 6-element set and every single-byte XOR "
+                     "alteration of the wrapped-key blob, encryption.data and both MACs must raise and leave VMX.attr unchanged.",
+                note="trusted: PyCryptodome AES, hashlib/hmac, the key safe layout transcription in mc/builders/vmxenc.py",
+                technique="exhaustive enumeration of parameter products and single-byte alterations on the real unlock path"),
 }
 
 PENDING_REASON = "check not built yet in this session (planned in DESIGN.md section 4); not claimed until it runs"
